@@ -389,7 +389,6 @@ DEFOP(set_int) {
 DEFOP(set_valuestring) {
     MVal *s = w.pick(st.A(0), st.A(1), [&](MVal *m) { return (m->type == T_STRING) && w.mutable_node(m); });
     if (!s) { w.noop(st, "no string"); return; }
-    if (s->refkind == R_ITEM) { w.noop(st, "reference to a string (target frozen)"); return; }
     bool alias = (st.A(2) & 1) && s->refkind == R_NONE && !s->str.empty();
     std::string nv = st.S(0).c_str();
     const char *arg = nv.c_str();
